@@ -3,4 +3,4 @@ R BHS.Crash
 X Conc.crun Conc.cinit Conc.quiescent Conc.cstep Crash.struct_validb
 R BHS.Merkle
 R BHS.Query
-X Merkle.verify Query.by_height_range Query.common_ancestor
+X Merkle.verify Merkle.page_http Query.by_height_range Query.common_ancestor
